@@ -331,7 +331,7 @@ func runC06(r *ev.Run) {
 	r.Set("abort_points", abortPoints.Load())
 	r.Set("uci_go_commands", uciN)
 	r.Set("distinct_outcomes", map[string]int64{"final_roots": finals.Load(), "null_move_returned": nullReturns.Load(), "aborted_before_first_iteration_completed": fallbacks.Load()})
-	r.Set("rule", "roots (constructed special roots incl. in-check, single-reply, promotion, clocks 98/99/100, mates, stalemates; histories with second and third occurrences; perft and bench roots) x depth x table size; abort points: hard node budget k for every k in [0, nodes of the full search]+1 (strided beyond the cap, dense at both ends), the soft node limit at every iteration boundary; every position of a 3-man class with budgets {none,0,1,5,17}; `go` through a real driver with numeric edge arguments; oracle: move null or legal, null only on final roots, completed search on a final root returns (0,0) or (0,-Inf), board snapshot unchanged, nodes <= budget, a second search on the same instance obeys the same; non-trivial = aborted searches")
+	r.Set("rule", "roots (constructed special roots incl. in-check, single-reply, promotion, clocks 98/99/100, mates, stalemates; histories with second and third occurrences; perft and bench roots) x depth x table size; abort points: hard node budget k for every k in [0, nodes of the full search]+1 (strided beyond the cap, dense at both ends), the soft node limit at every iteration boundary, the stop channel closed at every poll and soft time limits on a virtual clock (instrumented fault plans), the same budgets on a never-cleared instance; every position of a 3-man class with budgets {none,0,1,5,17}; `go` through a real driver with numeric edge arguments; oracle: move null or legal, null only on final roots, completed search on a final root returns (0,0) or (0,-Inf), board snapshot unchanged, nodes <= budget, a second search on the same instance obeys the same; non-trivial = aborted searches")
 	r.Set("exhaustive", false)
 	r.Assume("abort by the stop channel at every poll is enumerated by the instrumented fault-plan run (see C06 stop sweep in evidence when the instrumented binary is available); hard node budgets reach the polls at node entry only")
 }
